@@ -103,6 +103,25 @@ def canonical_names(dem, n):
     return None
 
 
+def is_pinned(dem):
+    """does the pinned tree have a routine with exactly this demangled signature?"""
+    canonical_names(dem, -1)
+    return dem in _PINNED
+
+
+def family(mod, pat):
+    """routines whose demangled name matches `pat`, for harnesses that assume the parameter list of the pinned tree: the
+    overloads the pinned tree has, when there are any (an overload added since is not what the harness was written for and
+    is left to the caller to mention); otherwise every match"""
+    names = mod.find_re(pat)
+    pinned = [n for n in names if is_pinned(mod.dem[n])]
+    return pinned or names
+
+
+def new_overloads(mod, pat):
+    return [mod.dem[n] for n in mod.find_re(pat) if not is_pinned(mod.dem[n])]
+
+
 def describe(mod, name):
     """[Param] for a function: IR names/types joined with demangled source types"""
     fn = mod.funcs[name]
@@ -126,6 +145,16 @@ def describe(mod, name):
     return out
 
 
+def helper_refutation(eff):
+    """message when the routine met its specification only with a raw-arithmetic helper replaced by the polynomial it agrees
+    with at 0/1 operands, and kernel mode has a representation at which the helper deviates from that polynomial"""
+    fs = getattr(eff, 'helper_findings', None)
+    if not fs:
+        return None
+    return ('raw-arithmetic helper is not the field function the routine needs for every representation: %s (contract-level '
+            'witness: the operand is a value the producing field operations may deliver)' % fs[0]['info'])
+
+
 class Effect:
     def __init__(s):
         s.writes = {}      # (region name, offkey) -> value
@@ -133,6 +162,7 @@ class Effect:
         s.ret = None
         s.interp = None
         s.params = None
+        s.helper_findings = []    # raw-arithmetic helpers that deviate from their multilinear interpolant (rawhelper.py)
 
 
 def run_routine(mod, name, summ, opts=None, alias=None, values=None, extents=None, elem=None, pre=None):
@@ -203,6 +233,7 @@ def run_routine(mod, name, summ, opts=None, alias=None, values=None, extents=Non
     e.interp = I
     e.params = ps
     e.ret = I.call(name, args)
+    e.helper_findings = list(getattr(I, 'helper_findings', []) or [])
     for reg, off, sz in I.writes:
         if reg.kind == 'param':
             e.writes[(reg.name, off)] = I.mem[(reg, off)][0]
